@@ -1,5 +1,7 @@
 import OAuth2Model.Driver.Proto
 import OAuth2Model.Driver.Req
+import OAuth2Model.Driver.Tok
+import OAuth2Model.Driver.Err
 
 def dispatch (line : String) : String :=
   match (line.trimAscii.toString.splitOn " ").filter (· ≠ "") with
@@ -7,6 +9,8 @@ def dispatch (line : String) : String :=
   | op :: args =>
     match op with
     | "req" => Drv.ReqOp.run args
+    | "tok" => Drv.TokOp.run args
+    | "err" => Drv.ErrOp.run args
     | _ => "bad-op"
 
 partial def loop (h : IO.FS.Stream) (out : IO.FS.Stream) : IO Unit := do
